@@ -92,6 +92,10 @@ func pathD(v ssa.Value, d int) string {
 	case *ssa.Extract:
 		return pathD(x.Tuple, d+1) + "#" + fmt.Sprint(x.Index)
 	case *ssa.Call:
+		// l.Front() where Front is `return l.front`: a thin accessor reads as the field it returns
+		if recv, fld, ok := thinGetter(x); ok {
+			return pathD(recv, d+1) + "." + fld
+		}
 		var args []string
 		for _, a := range x.Call.Args {
 			args = append(args, pathD(a, d+1))
@@ -1297,4 +1301,58 @@ func atomicOp(call *ssa.Call) (name string, args []ssa.Value, ne0 bool, ok bool)
 		return "", nil, false, false
 	}
 	return f.Name(), args, false, true
+}
+
+var thinGetterMemo = map[*ssa.Function]int{}
+
+// thinGetter: call is a call of a method of the module whose whole body is `return recv.f` (one block: field address, load,
+// return): the receiver argument and the field's name.
+func thinGetter(call *ssa.Call) (recv ssa.Value, field string, ok bool) {
+	if call.Call.IsInvoke() || len(call.Call.Args) != 1 || curCtx == nil {
+		return nil, "", false
+	}
+	cal := call.Call.StaticCallee()
+	if cal == nil {
+		return nil, "", false
+	}
+	o := origin(cal)
+	if o == nil || o.Signature.Recv() == nil || len(o.Blocks) != 1 || len(o.Params) != 1 || !curCtx.inModule(o) {
+		return nil, "", false
+	}
+	fi, seen := thinGetterMemo[o]
+	if !seen {
+		fi = -1
+		var fa *ssa.FieldAddr
+		var ld *ssa.UnOp
+		okShape := true
+		for _, in := range o.Blocks[0].Instrs {
+			switch y := in.(type) {
+			case *ssa.FieldAddr:
+				if fa != nil || y.X != ssa.Value(o.Params[0]) {
+					okShape = false
+				}
+				fa = y
+			case *ssa.UnOp:
+				if ld != nil || y.Op != token.MUL || fa == nil || y.X != ssa.Value(fa) {
+					okShape = false
+				}
+				ld = y
+			case *ssa.Return:
+				if len(y.Results) != 1 || ld == nil || y.Results[0] != ssa.Value(ld) {
+					okShape = false
+				}
+			case *ssa.DebugRef:
+			default:
+				okShape = false
+			}
+		}
+		if okShape && fa != nil && ld != nil {
+			fi = fa.Field
+		}
+		thinGetterMemo[o] = fi
+	}
+	if fi < 0 {
+		return nil, "", false
+	}
+	return call.Call.Args[0], fieldName(o.Params[0].Type(), fi), true
 }
